@@ -93,3 +93,42 @@ Example C06_nontrivial :
                 T_RCc; T_RC; T_RC; T_RD; T_RDc; T_RD; T_RD; T_S; T_W; T_W; T_W; T_W; T_W] in
   exists s, run c (init c i) sched = Some s /\ cancelled c s /\ all_done s /\ buffered c s = 1 /\ got s = 1.
 Proof. eexists. split; [vm_compute; reflexivity|]. unfold cancelled, all_done. vm_compute. repeat split; auto. Qed.
+
+(* ------------------------------------------------------------------ oracle soundness *)
+(* The run-time check evaluates [c06_ok leaked further bound watchdog] (Model/SysReader.v) on what
+   it saw of the Go reader after Close/cancel: the goroutines left once the system is quiet, the
+   number of further Next() = true counted from then on, the capacity [cap (cfg_of kind)] as
+   bound, and whether a call ran into the watchdog.  The model's observation
+   (Proofs/OracleC05C06.v): [leaked s1] = the goroutines that have not returned in the quiescent
+   state s1; [got s2 - got s1] for any later state s2; [next_blocked c s2] = Next has not
+   returned false and has no step.
+
+   For every configuration with the repaired order (all capacities), every reachable state s in
+   which every context is done (after Close or cancel: C06_close_cancels), every schedule from
+   there to a state s1 in which no goroutine can move, and every continuation to s2: *)
+From FV.Proofs Require Import OracleC05C06.
+
+Theorem C06_oracle_sound : forall c s sched1 s1 sched2 s2,
+  c_abc c = true -> reachable c s -> cancelled c s ->
+  run c s sched1 = Some s1 -> (forall g, goroutine g = true -> step c s1 g = None) ->
+  run c s1 sched2 = Some s2 ->
+  c06_ok (leaked s1) (got s2 - got s1) (cap c) (next_blocked c s2) = true.
+Proof. exact c06_oracle_sound. Qed.
+Print Assumptions C06_oracle_sound.
+
+(* the bound the driver passes: the code's capacities *)
+Theorem C06_oracle_bound : forall k,
+  cap (cfg_of k) = match k with KChunk => 2 | KDoc => 100 | KMatrix => 25 end.
+Proof. exact cap_cfg_of. Qed.
+Print Assumptions C06_oracle_bound.
+
+(* entries "sample"/"ssample" of the check (a per-chunk sample iterator, bound = capacity of the
+   sample channel, 100): in the model that iterator is the streamer S.  Its channel never holds
+   more than c_scap samples, and once S is gone the channel is closed, so a receiver gets at most
+   [oq s] <= c_scap further samples and does not block. *)
+Theorem C06_oracle_sound_sample : forall c s further,
+  c_abc c = true -> reachable c s -> sp s = S_none -> further <= oq s ->
+  c06_ok (match sp s with S_none => 0 | _ => 1 end) further (c_scap c)
+         (negb (out_cl s) && (oq s =? 0)) = true.
+Proof. exact c06_sample_oracle_sound. Qed.
+Print Assumptions C06_oracle_sound_sample.
